@@ -200,11 +200,16 @@ class Compiler:
 
         def fn():
             try:
-                return get_as_int(state, "link address", state["insn"], address, bitness=16, unsigned=False)
+                return get_as_int(state, "link address", state["insn"], address, bitness=16, unsigned=False, cycle_is_reported=False)
             except DeferredCycle:
+                try:
+                    value = address.resolve(state)
+                except DeferredCycle:
+                    # Cannot even be written down in terms of the link base
+                    value = address
                 reports.error(
                     "recursive-definition",
-                    (state["insn"].ctx_start, state["insn"].ctx_end, f"The link base is mathematically equal to {address.resolve(state)!r},\nwhere LA denotes link base. In other words, the link base depends on itself,\nand thus cannot be determined.")
+                    (state["insn"].ctx_start, state["insn"].ctx_end, f"The link base is mathematically equal to {value!r},\nwhere LA denotes link base. In other words, the link base depends on itself,\nand thus cannot be determined.")
                 )
                 return 0
 
@@ -329,11 +334,21 @@ class Compiler:
         if not link_base["promise"].settled:
             link_base["promise"].settle(0o1000)
 
-        base, code = wait(link_base["promise"]), wait(generated_code)
+        try:
+            base, code = wait(link_base["promise"]), wait(generated_code)
+        except DeferredCycle as ex:
+            self.report_cycle(ex, link_base)
+            raise reports.RecoverableError("A value depends on itself")
 
         # Resolve all symbols, in case some have not been used
-        for _, (_, value) in self.symbols.items():
-            wait(value)
+        for _, (symbol, value) in self.symbols.items():
+            try:
+                wait(value)
+            except DeferredCycle:
+                reports.error(
+                    "recursive-definition",
+                    (symbol.ctx_start, symbol.ctx_end, "The value of this symbol depends on itself, and thus cannot be determined.")
+                )
 
         return base, code
 
@@ -359,6 +374,24 @@ class Compiler:
             "format": self.emitted_files[0][2],
             "path": self.emitted_files[0][3]
         }
+
+
+    def report_cycle(self, ex, link_base):
+        # Point at the definition of a symbol that takes part in the cycle, or at
+        # the statement that sets the link base
+        for _, (symbol, value) in self.symbols.items():
+            if any(value is deferred for deferred in ex.args):
+                reports.error(
+                    "recursive-definition",
+                    (symbol.ctx_start, symbol.ctx_end, "The value of this symbol depends on itself, and thus cannot be determined.")
+                )
+                return
+        if link_base["set_where"] is None:
+            raise ex
+        reports.error(
+            "recursive-definition",
+            (link_base["set_where"].ctx_start, link_base["set_where"].ctx_end, "An address depends on itself, and thus cannot be determined.")
+        )
 
 
     def generate_listing(self):
